@@ -6,7 +6,7 @@ from hypothesis import strategies as st
 
 from . import gen_pp
 
-DIRS = ["", "src", "src/core", "src/core/deep", "include", "lib", "lib/util"]
+DIRS = ["", "src", "src/core", "src/core/deep", "include", "lib", "lib/util", "lib/src", "src/lib", "include/core"]
 C_EXT = [".c", ".cpp", ".h", ".hpp", ".cu", ".cc"]
 PLATFORM_NAMES = ["cpu", "gpu", "fpga", "arm"]
 
